@@ -240,3 +240,9 @@ Example c05_sizes_example :
   sizes (fst (run C05Ex.r0 [ODrop 11; ODrop 10; OMsg 12 (CGoodbye [] "x") 0])) = sizes (init_realm C05Ex.cfg0) /\
   r_clients (fst (run C05Ex.r0 [ODrop 11; ODrop 10; OMsg 12 (CGoodbye [] "x") 0])) = [].
 Proof. exact C05Ex.sizes_back. Qed.
+
+Example c05_empty_when_idle_hypotheses_satisfiable :
+  Forall op_ok IdleEx.ops1 /\ k0 C05Ex.cfg0 + N.of_nat (List.length IdleEx.ops1) <= max_idN /\
+  r_clients (fst (run (init_realm C05Ex.cfg0) IdleEx.ops1)) = [] /\
+  sizes (init_realm C05Ex.cfg0) = [0; 0; 1; 0; 0; 1; 0; 1; 23; 0; 0; 23; 0; 0; 0; 1].
+Proof. exact IdleEx.hyps. Qed.
